@@ -297,12 +297,13 @@ impl C13 {
                 judge(accepted, rejected_for_it, &hi, &tol, &delta, "loss vs marginal price")
             };
             let bad = |j: &Judge| matches!(j, Judge::AcceptedButOver(_) | Judge::RejectedButWithin(_));
-            // a refused trade whose quote beats the pre-trade marginal price (and the peg) by more
-            // than rounding: no trade on the invariant can do that, so the pricing kernel is off
-            // its invariant there (dust pools; C19's subject). The statement binds executions
-            // ("executes only if"); refusing such a trade contradicts nothing it says
+            // a refused trade whose quote beats the pre-trade marginal price and the peg (a negative
+            // loss under both readings, even at the over-estimate): the trader would have received
+            // more than the pool price gives, fees included - dust pools where the pricing kernel
+            // is off its invariant (C19's subject) or offers of a unit or two. The statement binds
+            // executions ("executes only if"); refusing such a trade contradicts nothing it says
             let zero = Q::int(0);
-            if !accepted && hi.lt(&zero.sub(&delta)) && peg.lt(&zero.sub(&delta)) {
+            if !accepted && hi.lt(&zero) && peg.lt(&zero) {
                 rep.count("swap_limit_ss", "refused_although_quote_beats_the_marginal_price_(kernel_off_invariant,_see_C19)");
                 return;
             }
